@@ -51,6 +51,12 @@ def generate(seed, tier="quick", mode=None, **kw):
                                        ["lit", " via "], ["a4", G.tok4(r, v, zeros=False), {"v": v}]], "eol": "\n"})
             elif c < 0.16 and o["ip"]:
                 lines.append(GC.directed_line(r))
+            elif c < 0.19 and mode == "hist" and o["ip"]:
+                # an IPv6 token with a dotted-quad tail: both address passes touch it (how it is tokenised is C06's subject;
+                # here it only has to come out the same in every execution)
+                tok = r.choice(["64:ff9b::", "::ffff:", "2001:db8::", "2001:db8:a:b::"]) + "%d.%d.%d.%d" % (
+                    r.choice([23, 100, 198, 203]), r.randint(0, 255), r.randint(0, 255), r.randint(1, 254))
+                lines.append({"segs": [["lit", "ipv6 route "], ["x6", tok], ["lit", " null0"]], "eol": "\n"})
             elif c < 0.25:
                 lines.append(G.lit_line(r.choice(G.BENIGN)))
             elif c < 0.60:
